@@ -22,7 +22,8 @@ theorem guard_code_facts : GuardCodeOk := by decide
 /-- governance removal: 30 % power-change cap of the expected shape, list length bounded by `MaxOracleSize` -/
 theorem cap_code_facts : powerChangeCap = 30 ∧ maxOracleSize = 100 ∧ capShapeOk = true := by decide
 
-/-- `UnbondedOracle` refuses while an unbonding delegation still exists (and not when there is none) -/
+/-- `UnbondedOracle` refuses while an unbonding delegation still EXISTS — also one whose entries have reached their
+completion time but have not been paid out by the staking end-blocker yet — and not when there is none -/
 theorem unbond_code_fact : unbondUbdTest = .rejectIfExists := by decide
 
 /-! ## registry -/
@@ -175,7 +176,7 @@ theorem stake_recoverable (s : State) (o : Nat) (r : Oracle)
     Store.get (unbond s o).1.byBridger r.bridger = none ∧
     Store.get (unbond s o).1.byExt r.ext = none ∧
     (unbond (unbond s o).1 o).2 = .err "no-oracle" := by
-  have hb : unbondBlocked false = false := by simp [unbondBlocked, unbond_code_fact]
+  have hb : ∀ im, unbondBlocked false im = false := by intro im; simp [unbondBlocked, unbond_code_fact]
   have hlt : ¬ getBal s.dbal o < slashAmount s.p r := by omega
   have hp' : ¬ o ∈ s.proposal := by simpa using hp
   have e : unbond s o = (unbonded s o r, .ok) := by
@@ -238,10 +239,28 @@ theorem unbond_waits_for_maturity (s : State) (o : Nat) (r : Oracle)
     (hr : Store.get s.oracles o = some r) (hp : s.proposal.contains o = false) (hoff : r.online = false)
     (hpend : s.ubds.any (fun u => u.oracle == o && u.val == r.val) = true) :
     unbond s o = (s, .err "ubd") := by
-  have hb : unbondBlocked true = true := by simp [unbondBlocked, unbond_code_fact]
+  have hb : ∀ im, unbondBlocked true im = true := by intro im; simp [unbondBlocked, unbond_code_fact]
   have hp' : ¬ o ∈ s.proposal := by simpa using hp
   unfold unbond
   simp [hp', hr, hoff, hpend, hb]
+
+/-- a successful unbond never leaves an unbonding entry of the deleted record behind — in particular not one that has reached
+its completion time but has not been paid out yet (the block whose time first reaches the completion time): the payout
+of such an entry would arrive at a delegate address nobody can act for -/
+theorem unbond_ok_leaves_no_unbonding_entry (s : State) (o : Nat) (r : Oracle) (hr : Store.get s.oracles o = some r)
+    (h : (unbond s o).2 = .ok) : s.ubds.any (fun u => u.oracle == o && u.val == r.val) = false := by
+  unfold unbond at h
+  split at h
+  · cases h
+  · rw [hr] at h
+    simp only at h
+    split at h
+    · cases h
+    · split at h
+      · cases h
+      · rename_i hb
+        simp only [unbondBlocked, unbond_code_fact] at hb
+        simpa using hb
 
 /-- an unbonding entry pays the *delegate address of its oracle* when the block time reaches its completion time -/
 theorem maturity_pays_delegate_address (s : State) (t : Nat) (u : Ubd) (hu : s.ubds = [u]) (hc : u.completion ≤ t) :
